@@ -601,7 +601,7 @@ theorem handleWeight_noncrit (env : Env) (hooks : List Hook) (m : Moment) (w : I
   · rw [List.length_eq_zero_iff, List.filter_eq_nil_iff]
     intro i hi
     rcases List.mem_append.mp hi with hi | hi
-    · simp [h2a i hi]
+    · simp [h2a i (List.mem_filter.mp hi).1]
     · have := instantiate_noncrit (phase2 (phase1 env hooks m w).1 m w).1
         ((hooks.filter (fun h => h.trig = m ∧ h.tw = w)).filter (fun h => h.isTask))
         (fun y hy => hh y (List.mem_filter.mp (List.mem_filter.mp hy).1).1) i hi
@@ -788,5 +788,211 @@ theorem fsmEvent_moved_marks (env : Env) (hooks : List Hook) (e : Ev) (b r : Boo
         refine ⟨?_, hle.2⟩
         simp only [effectsOf_append, beforeEvent_no_effects, hle.1, hen, haf, effectsOf_cons, effectsOf_nil, List.nil_append, List.append_nil]
         rfl
+
+end EnvM
+
+namespace EnvM
+
+/-! ### a pending result stays pending until its await point is handled, is counted there, and is
+    cancelled by a teardown that goes through -/
+
+theorem removePending_cons (p : (Moment × Int) × List Inst) (ps : List ((Moment × Int) × List Inst)) (m : Moment) (w : Int) :
+    removePending (p :: ps) m w = if p.1.1 = m ∧ p.1.2 = w then removePending ps m w else p :: removePending ps m w := by
+  unfold removePending
+  by_cases h : p.1.1 = m ∧ p.1.2 = w
+  · simp [h]
+  · simp only [List.filter_cons, h, if_false]; simp
+
+theorem getAt_removePending_ne (pend : List ((Moment × Int) × List Inst)) (m m' : Moment) (w w' : Int)
+    (h : ¬ (m' = m ∧ w' = w)) : getAt (removePending pend m' w') m w = getAt pend m w := by
+  induction pend with
+  | nil => rfl
+  | cons p ps ih =>
+    rw [removePending_cons]
+    by_cases hp' : p.1.1 = m' ∧ p.1.2 = w'
+    · have hp : ¬ (p.1.1 = m ∧ p.1.2 = w) := by
+        intro hp; exact h ⟨hp'.1.symm.trans hp.1, hp'.2.symm.trans hp.2⟩
+      rw [if_pos hp', getAt_cons_ne _ _ _ _ hp]; exact ih
+    · rw [if_neg hp']
+      by_cases hp : p.1.1 = m ∧ p.1.2 = w
+      · rw [getAt_cons_eq _ _ _ _ hp, getAt_cons_eq _ _ _ _ hp]
+      · rw [getAt_cons_ne _ _ _ _ hp, getAt_cons_ne _ _ _ _ hp]; exact ih
+
+/-- Handling one (moment, weight) point keeps whatever is pending at ANOTHER point pending there. -/
+theorem handleWeight_keeps_other (env : Env) (hooks : List Hook) (m m' : Moment) (w w' : Int) (i : Inst)
+    (hne : ¬ (m' = m ∧ w' = w)) (hi : i ∈ pendingAt env m w) : i ∈ pendingAt (handleWeight env hooks m' w').1 m w := by
+  have h1 : i ∈ getAt (phase1 env hooks m' w').1.pending m w := by
+    unfold phase1; simp only
+    apply getAt_registerAwaits_mono
+    rw [instantiate_pending]; exact hi
+  have h2 : i ∈ getAt (phase2 (phase1 env hooks m' w').1 m' w').1.pending m w := by
+    unfold phase2; simp only
+    split
+    · exact h1
+    · simp only; rw [getAt_removePending_ne _ _ _ _ _ hne]; exact h1
+  unfold handleWeight
+  simp only
+  rw [pendingAt_eq_getAt, instantiate_pending]; exact h2
+
+theorem instantiate_cancelled (env : Env) (hs : List Hook) : (instantiate env hs).1.cancelled = env.cancelled := by
+  induction hs generalizing env with
+  | nil => rfl
+  | cons h hs ih => simp only [instantiate]; rw [ih]; rfl
+
+/-- Hook handling cancels nothing. -/
+theorem handleWeight_cancelled (env : Env) (hooks : List Hook) (m : Moment) (w : Int) :
+    (handleWeight env hooks m w).1.cancelled = env.cancelled := by
+  have h1 : (phase1 env hooks m w).1.cancelled = env.cancelled := by
+    unfold phase1; simp only; rw [instantiate_cancelled]
+  have h2 : (phase2 (phase1 env hooks m w).1 m w).1.cancelled = env.cancelled := by
+    unfold phase2; simp only
+    split <;> exact h1
+  unfold handleWeight
+  simp only
+  rw [instantiate_cancelled]; exact h2
+
+/-- …and the point itself counts every failing critical result that is pending there (unless a teardown
+    cancelled the call). -/
+theorem handleWeight_counts_pending (env : Env) (hooks : List Hook) (m : Moment) (w : Int) (i : Inst)
+    (hi : i ∈ pendingAt env m w) (hf : i.fails = true) (hc : i.critical = true) (hnc : isCancelled env i = false) :
+    (handleWeight env hooks m w).2.2 > 0 := by
+  have h1 : i ∈ pendingAt (phase1 env hooks m w).1 m w := by
+    rw [pendingAt_eq_getAt]
+    unfold phase1; simp only
+    apply getAt_registerAwaits_mono
+    rw [instantiate_pending]; exact hi
+  unfold handleWeight
+  simp only
+  apply List.length_pos_of_mem (a := i)
+  rw [List.mem_filter]
+  refine ⟨List.mem_append_left _ (List.mem_filter.mpr ⟨?_, by simp [hnc]⟩), by simp [hf, hc]⟩
+  exact h1
+
+theorem handleWeights_counts_pending (env : Env) (hooks : List Hook) (m : Moment) (ws : List Int) (w : Int) (i : Inst)
+    (hw : w ∈ ws) (hi : i ∈ pendingAt env m w) (hf : i.fails = true) (hc : i.critical = true) (hnc : isCancelled env i = false) :
+    (handleWeights env hooks m ws).2.2 > 0 := by
+  induction ws generalizing env with
+  | nil => cases hw
+  | cons w' ws ih =>
+    simp only [handleWeights]
+    split
+    · rename_i h; exact h
+    · rename_i h
+      simp only
+      rcases List.mem_cons.mp hw with rfl | hw'
+      · exact absurd (handleWeight_counts_pending env hooks m w i hi hf hc hnc) h
+      · by_cases heq : w' = w
+        · subst heq; exact absurd (handleWeight_counts_pending env hooks m w' i hi hf hc hnc) h
+        · exact ih _ hw' (handleWeight_keeps_other env hooks m m w w' i (fun hh => heq hh.2) hi)
+            (by unfold isCancelled at hnc ⊢; rw [handleWeight_cancelled]; exact hnc)
+
+theorem mem_sortDedup (ws : List Int) (x : Int) : x ∈ sortDedup ws ↔ x ∈ ws := by
+  unfold sortDedup
+  suffices ∀ acc, x ∈ ws.foldl (fun acc w => insertSorted w acc) acc ↔ x ∈ acc ∨ x ∈ ws by simpa using this []
+  induction ws with
+  | nil => intro acc; simp
+  | cons a rest ih =>
+    intro acc
+    simp only [List.foldl_cons, ih, mem_insertSorted, List.mem_cons]
+    constructor
+    · rintro ((h | h) | h) <;> simp [h]
+    · rintro (h | h | h) <;> simp [h]
+
+theorem mem_weightsFor_of_pending (env : Env) (hooks : List Hook) (m : Moment) (p : Int → Bool) (w : Int) (i : Inst)
+    (hi : i ∈ pendingAt env m w) (hp : p w = true) : w ∈ weightsFor env hooks m p := by
+  unfold weightsFor
+  simp only
+  rw [List.mem_filter]
+  refine ⟨?_, hp⟩
+  rw [mem_sortDedup]
+  apply List.mem_append_right
+  unfold pendingAt at hi
+  cases hf : env.pending.find? (fun p => p.1.1 = m ∧ p.1.2 = w) with
+  | none => rw [hf] at hi; simp at hi
+  | some q =>
+    rw [hf] at hi; simp at hi
+    have hq := List.find?_some hf
+    simp only [decide_eq_true_eq] at hq
+    rw [List.mem_map]
+    refine ⟨q, ?_, hq.2⟩
+    rw [List.mem_filter]
+    refine ⟨List.mem_of_find?_eq_some hf, ?_⟩
+    have : q.2.isEmpty = false := by
+      cases hq2 : q.2 with
+      | nil => rw [hq2] at hi; cases hi
+      | cons _ _ => rfl
+    simp [hq.1, this]
+
+
+theorem handleHooks_counts_pending (env : Env) (hooks : List Hook) (m : Moment) (p : Int → Bool) (w : Int) (i : Inst)
+    (hi : i ∈ pendingAt env m w) (hp : p w = true) (hf : i.fails = true) (hc : i.critical = true) (hnc : isCancelled env i = false) :
+    (handleHooks env hooks m p).2.2 > 0 :=
+  handleWeights_counts_pending env hooks m _ w i (mem_weightsFor_of_pending env hooks m p w i hi hp) hi hf hc hnc
+
+theorem handleWeights_keeps_elsewhere (env : Env) (hooks : List Hook) (m m' : Moment) (ws : List Int) (w : Int) (i : Inst)
+    (hne : m' ≠ m) (hi : i ∈ pendingAt env m w) : i ∈ pendingAt (handleWeights env hooks m' ws).1 m w := by
+  induction ws generalizing env with
+  | nil => exact hi
+  | cons w' ws ih =>
+    simp only [handleWeights]
+    have hk := handleWeight_keeps_other env hooks m m' w w' i (fun hh => hne hh.1) hi
+    split
+    · exact hk
+    · exact ih _ hk
+
+theorem handleHooks_keeps_elsewhere (env : Env) (hooks : List Hook) (m m' : Moment) (p : Int → Bool) (w : Int) (i : Inst)
+    (hne : m' ≠ m) (hi : i ∈ pendingAt env m w) : i ∈ pendingAt (handleHooks env hooks m' p).1 m w :=
+  handleWeights_keeps_elsewhere env hooks m m' _ w i hne hi
+
+/-! ### teardown cancels what is pending -/
+
+theorem callAllSync_pending (env : Env) (m : Moment) (w : Int) (hs : List Hook) :
+    (callAllSync env m w hs).1.pending = env.pending ∧ (callAllSync env m w hs).1.cancelled = env.cancelled := by
+  induction hs generalizing env with
+  | nil => exact ⟨rfl, rfl⟩
+  | cons h hs ih => simp only [callAllSync]; exact ih _
+
+theorem destroyWeights_pending (env : Env) (hooks : List Hook) (ws : List Int) :
+    (destroyWeights env hooks ws).1.pending = env.pending ∧ (destroyWeights env hooks ws).1.cancelled = env.cancelled := by
+  induction ws generalizing env with
+  | nil => exact ⟨rfl, rfl⟩
+  | cons w ws ih =>
+    simp only [destroyWeights]
+    have h1 := ih (callAllSync env (destroyHooksAt hooks w).2 w ((destroyHooksAt hooks w).1.filter (fun h => !h.isTask))).1
+    have h2 := callAllSync_pending env (destroyHooksAt hooks w).2 w ((destroyHooksAt hooks w).1.filter (fun h => !h.isTask))
+    exact ⟨h1.1.trans h2.1, h1.2.trans h2.2⟩
+
+theorem uncollected_nil_of_cancelled (env : Env) (h : ∀ i ∈ allPending env, i ∈ env.cancelled) : uncollected env = [] := by
+  unfold uncollected isCancelled
+  rw [List.filter_eq_nil_iff]
+  intro i hi
+  simp only [Bool.not_eq_true, Bool.not_eq_false', List.any_eq_true]
+  exact ⟨i, h i hi, by simp⟩
+
+/-- A teardown that goes through cancels every call that is still pending: no result is left
+    waiting to be collected. -/
+theorem teardown_uncollected (env : Env) (hooks : List Hook) (f r1 r2 : Bool) (n : Nat)
+    (h : (teardown env hooks f r1 r2 n).2.2.moved = true) : uncollected (teardown env hooks f r1 r2 n).1 = [] := by
+  unfold teardown at h ⊢
+  split at h
+  · cases h
+  · split at h
+    · cases h
+    · rename_i h1 h2
+      rw [if_neg h1, if_neg h2]
+      simp only at h ⊢
+      split at h
+      · cases h
+      · rename_i h3
+        rw [if_neg h3]
+        split at h
+        · cases h
+        · rename_i h4
+          rw [if_neg h4]
+          apply uncollected_nil_of_cancelled
+          intro i hi
+          simp only [allPending] at hi ⊢
+          exact List.mem_append_right _ hi
+
 
 end EnvM
